@@ -246,7 +246,7 @@ def s_kind(F, res):
                         why.append("%s(..): every value it returns is a constant Expression constructor" % o.callee.split("::")[-1])
                     elif o.kind == "call" and o.term is not None and (o.term.get("trait") in (NODE, APPLY)):
                         why.append("rebuild of an existing Set through %s" % o.callee.split("::")[-1])
-                    elif o.kind == "agg" and o.rv.get("adt") == EXPR and o.rv["variant"] in ("UtxoSet", "Assets"):
+                    elif o.kind == "agg" and o.rv.get("adt") == EXPR and o.rv["variant"] not in NONCONST_VARIANTS:
                         why.append("Expression::%s literal" % o.rv["variant"])
                     else:
                         good = False
@@ -362,11 +362,17 @@ def f_norm(F, res):
     for f in F.fns.values():
         if is_derive(f) or not (f["crate"] in ("tx3_lang", "tx3_tir")):
             continue
+        if not any(s["rv"]["k"] == "agg" and s["rv"].get("adt") == PARAM and s["rv"]["variant"] in ("ExpectValue", "ExpectInput") for _, _, s in mir.stmts(f)):
+            continue
+        # a name computed by a helper of the crate (`fn script_param_name(..) -> String`) is followed into the helper
+        f = mir.inline_calls(F, f, want=e3._helper_policy(f["crate"]), depth=2)
         du = None
         for bi, si, s in mir.stmts(f):
             rv = s["rv"]
             if rv["k"] != "agg" or rv.get("adt") != PARAM or rv["variant"] not in ("ExpectValue", "ExpectInput") or site_in_derive(s["exp"]):
                 continue
+            if f["blocks"][bi].get("inl"):
+                continue   # counted where the helper itself is visited
             du = du or mir.DefUse(f)
             origins = mir.provenance(f, du, rv["ops"][0], stop_at_calls=lambda t: "to_lowercase" in mir.callee_of(t))
             # rebuilds of an existing Param (apply_*, Node::apply, reduce) keep the name: skip identity rebuilds
